@@ -262,26 +262,24 @@ fn encoding_rank(qv: &QualityItem<Preference<Encoding>>) -> u8 {
 
 /// Returns true if "identity" is an acceptable encoding.
 ///
-/// Internal algorithm relies on item list being in descending order of quality.
+/// A specific "identity" item decides wherever it is listed; "*" only decides when there is none.
 fn is_identity_acceptable(items: &'_ [QualityItem<Preference<Encoding>>]) -> bool {
-    if items.is_empty() {
-        return true;
+    // occurrence of "identity;q=n"; acceptable if quality is non-zero
+    if let Some(item) = items.iter().find(|item| {
+        matches!(
+            item.item,
+            Preference::Specific(Encoding::Known(ContentEncoding::Identity))
+        )
+    }) {
+        return item.quality > Quality::ZERO;
     }
 
-    // Loop algorithm depends on items being sorted in descending order of quality. As such, it
-    // is sufficient to return (q > 0) when reaching either an "identity" or "*" item.
-    for q in items {
-        match (q.quality, &q.item) {
-            // occurrence of "identity;q=n"; return true if quality is non-zero
-            (q, Preference::Specific(Encoding::Known(ContentEncoding::Identity))) => {
-                return q > Quality::ZERO
-            }
-
-            // occurrence of "*;q=n"; return true if quality is non-zero
-            (q, Preference::Any) => return q > Quality::ZERO,
-
-            _ => {}
-        }
+    // occurrence of "*;q=n" without a more specific entry for "identity"
+    if let Some(item) = items
+        .iter()
+        .find(|item| matches!(item.item, Preference::Any))
+    {
+        return item.quality > Quality::ZERO;
     }
 
     // implicit acceptable identity
